@@ -73,6 +73,9 @@ def param_root(t, _elem: bool = False) -> Optional[str]:
                 t = args[0]
                 _elem = True
                 continue
+            if f == ('ref', 'builtin', 'vars') and args:
+                t = args[0]                 # vars(x) is x.__dict__ itself, not a copy: deleting from it deletes x's attributes
+                continue
             if not _elem:
                 return None
             if isinstance(f, tuple) and f[:2] == ('ref', 'builtin') and f[2] in ELEMENT_PRESERVING:
@@ -125,7 +128,53 @@ def mutation_events(F, paths: List[Path]) -> List[Tuple[Event, str, str]]:
                             r = param_root(e.args[i])
                             if r is not None:
                                 out.append((e, r, '`%s`: %s modifies its argument, here the caller\'s `%s`' % (e.text(), f[2], r)))
+                # map(f, xs) / filter(f, xs) with a package function: f is applied to the elements of xs
+                if isinstance(f, tuple) and f[:2] == ('ref', 'builtin') and f[2] in ('map', 'filter') and len(e.args) >= 2:
+                    a0 = freeze(e.args[0])
+                    if isinstance(a0, tuple) and a0[:2] == ('ref', 'fn') and a0[2] in F.functions:
+                        for i in sorted(_mutated_params(F, a0[2])):
+                            if i + 1 < len(e.args):
+                                r = param_root(e.args[i + 1], True) if not isinstance(freeze(e.args[i + 1]), tuple) or freeze(e.args[i + 1])[:1] != ('param',) \
+                                    else freeze(e.args[i + 1])[1]
+                                if r is not None:
+                                    out.append((e, r, '`%s`: %s modifies what it is given in place, here the elements of the caller\'s `%s`' % (
+                                        e.text(), a0[2].rsplit('.', 1)[-1], r)))
+                # a package function that was not followed into (a recursive helper): what it does to its own parameters it does to
+                # the values handed to it here
+                if e.resolved and e.resolved in F.functions and not e.d.get('ctor'):
+                    for i in sorted(_mutated_params(F, e.resolved)):
+                        if i < len(e.args):
+                            r = param_root(e.args[i])
+                            if r is not None:
+                                out.append((e, r, '`%s`: %s modifies its parameter %d in place, here (part of) the caller\'s `%s`' % (
+                                    e.text(), e.resolved.rsplit('.', 1)[-1], i + 1, r)))
     return out
+
+
+_MUT_SUMMARY: Dict[str, Set[int]] = {}
+
+
+def _mutated_params(F, q: str) -> Set[int]:
+    """Positions of the parameters a package function mutates in place (directly, or by handing them to itself / another such
+    function)."""
+    key = '%s@%s' % (q, id(F))
+    if key in _MUT_SUMMARY:
+        return _MUT_SUMMARY[key]
+    _MUT_SUMMARY[key] = set()           # recursion: assume nothing, the fixpoint below adds what is found
+    fi = F.functions[q]
+    if not isinstance(fi.node, ast.FunctionDef):
+        return set()
+    names = [a.arg for a in fi.node.args.args]
+    for _round in range(2):
+        try:
+            paths = SymExec(F, fi).run()
+        except Exception:
+            return _MUT_SUMMARY[key]
+        found = {names.index(r) for _e, r, _d in mutation_events(F, paths) if r in names}
+        if found <= _MUT_SUMMARY[key]:
+            break
+        _MUT_SUMMARY[key] |= found
+    return _MUT_SUMMARY[key]
 
 
 def check(chk: Check) -> None:
@@ -320,6 +369,25 @@ def _r3(chk: Check) -> None:
                                 r = _value_root(e.args[i], roots)
                                 if r is not None:
                                     problems.append('`%s`: %s modifies the value `%s` produced' % (e.text(), f[2], show(r)))
+                    # package functions that modify what they are given (not followed into: recursive helpers, functions mapped over
+                    # the values)
+                    targets = []
+                    if e.resolved and e.resolved in F.functions and not e.d.get('ctor'):
+                        targets = [(e.resolved, 0)]
+                    elif isinstance(f, tuple) and f[:2] == ('ref', 'builtin') and f[2] in ('map', 'filter') and len(e.args) >= 2:
+                        a0 = freeze(e.args[0])
+                        if isinstance(a0, tuple) and a0[:2] == ('ref', 'fn') and a0[2] in F.functions:
+                            targets = [(a0[2], 1)]
+                    for q2, off in targets:
+                        for i in sorted(_mutated_params(F, q2)):
+                            if i + off < len(e.args):
+                                a_ = freeze(e.args[i + off])
+                                if isinstance(a_, tuple) and a_[:1] == ('comp',):
+                                    a_ = a_[2]          # the elements of a comprehension
+                                r = _value_root(a_, roots)
+                                if r is not None:
+                                    problems.append('`%s`: %s modifies what it is given in place, here (part of) the value `%s` produced' % (
+                                        e.text(), q2.rsplit('.', 1)[-1], show(r)))
         if q in closure_params:
             # a lambda closure: its own parameters are values the caller (map, filter, sorted, the host) hands in
             for e_, r_, d_ in mutation_events(F, paths):
